@@ -364,6 +364,10 @@ func (fr *Frame) applyContract(instr ssa.Instruction, bc *BoundContract, sig *ty
 	if bc.C.Trusted || bc.C.IsIface || strings.HasSuffix(bc.C.File, ".spec") {
 		c.trusted[bc.Full] = true
 	} else {
+		if c.applied == nil {
+			c.applied = map[string]bool{}
+		}
+		c.applied[bc.Full] = true
 		for _, cl := range bc.C.Clauses {
 			if cl.Kind == "assume" {
 				c.trusted[bc.Full+" [assume clauses]"] = true
